@@ -257,6 +257,21 @@ func init() {
 			}
 			return []Value{BoolConst(e.Callee == want)}
 		},
+		"chanCap": func(s *State, fn *ssa.Function, args []Value, where string) []Value {
+			// chanCap(c): the capacity c was made with (an uninterpreted function of the channel's identity when it was
+			// not made in the function under verification)
+			c, ok := args[0].(*ChanV)
+			if !ok {
+				unsup("chanCap of %T", args[0])
+			}
+			if c.Obj != nil {
+				if ov, ok := s.contents(c.Obj).(*OpaqueV); ok && ov.Kind == "chan" && ov.T != nil {
+					return []Value{ov.T}
+				}
+				return []Value{App("chan_cap", BV(64), Const(64, uint64(c.Obj.ID)))}
+			}
+			return []Value{Const(64, 0)}
+		},
 		"logGo": func(s *State, fn *ssa.Function, args []Value, where string) []Value {
 			// logGo(i, name): entry i is a go statement starting the function called name
 			e := s.logEntry(args[0])
@@ -892,10 +907,6 @@ func init() {
 			s.log = append(s.log, LogEntry{Callee: "io.Closer.Close", Target: recv, Arr: &ArrZero{W: 8}, Off: Const(64, 0), N: Const(64, 0), RetN: Const(64, 0), Err: err})
 			return []Value{err}
 		},
-		"reflect.Type.Elem": func(s *State, recv *IfaceV, args []Value, where string) []Value {
-			// TypeOf(m).Elem(): the struct type behind the pointer; kept as the same handle (the dynamic type id of m)
-			return []Value{recv}
-		},
 		"net.Conn.SetReadDeadline":  connCall("SetReadDeadline"),
 		"net.Conn.SetWriteDeadline": connCall("SetWriteDeadline"),
 		"net.Conn.Read":             connCall("Read"),
@@ -908,6 +919,7 @@ func init() {
 		"net.PacketConn.Close":      connCall("Close"),
 	}
 	registerEnumModels()
+	registerRTypeModels()
 }
 
 func connCall(name string) invokeFn {
